@@ -152,6 +152,13 @@ class CallMixin:
         con = self.contracts.get(f"{cls.__module__}:{cls.__qualname__}")
         if con is not None:
             return con.apply(self, st, args, kwargs, node)
+        if self.is_record_class(cls):
+            ref = st.alloc(cls)
+            if args:
+                raise Unsupported(f"positional construction of record {cls.__name__}", node)
+            for k, v in kwargs.items():
+                self.write_field(st, ref, k, v)
+            return [(st, ref)]
         if getattr(cls, "__module__", "").split(".")[0] in ("typing",):
             raise Unsupported(f"call of typing construct {cls}", node)
         dfields = getattr(cls, "__dataclass_fields__", None)
@@ -209,6 +216,14 @@ class CallMixin:
                 out.append((s2, r if isinstance(r, Exc) else ref))
             return out
         return [(st, ref)]
+
+    def is_record_class(self, cls):
+        """protobuf message classes: construction = allocation + keyword field initialisation"""
+        try:
+            from google.protobuf.message import Message
+            return isinstance(cls, type) and issubclass(cls, Message)
+        except Exception:
+            return False
 
     def call_function_inline(self, st, fn, args, kwargs, node=None):
         key = loader.func_key(fn)
@@ -589,18 +604,32 @@ class CallMixin:
             if name == "popitem":
                 raise Unsupported("dict.popitem", node)
             raise Unsupported(f"dict.{name}", node)
-        if k == "set[ref]":
+        if k == "map[key,ref]":
+            if name == "get":
+                v = z3.Select(c, self.elem_key(st, args[0]))
+                default = args[1] if len(args) > 1 else None
+                out = []
+                for s2, b in self.branch(st, v == NULL, "dict.get miss"):
+                    out.append((s2, default if b else SRef(v, elemcls)))
+                return out
+            raise Unsupported(f"dict.{name}", node)
+        if k in ("set[ref]", "set[key]"):
+            ek = (lambda x: x.z) if k == "set[ref]" else (lambda x: self.elem_key(st, x))
             if name == "add":
                 if not isinstance(args[0], SRef):
                     raise Unsupported(f"set.add({args[0]!r})", node)
-                put(z3.Store(c, args[0].z, z3.BoolVal(True)))
+                put(z3.Store(c, ek(args[0]), z3.BoolVal(True)))
+                return [(st, None)]
+            if name == "discard" and getattr(self, "_discard", None) is node:
+                put(z3.Store(c, ek(args[0]), z3.BoolVal(False)))
                 return [(st, None)]
             if name in ("remove", "discard"):
                 e = args[0]
+                ekz = ek(e)
                 out = []
-                for s2, b in self.branch(st, z3.Select(c, e.z), "set.remove hit"):
+                for s2, b in self.branch(st, z3.Select(c, ekz), "set.remove hit"):
                     if b:
-                        s2.heap.put(loc.field, loc.owner, z3.Store(c, e.z, z3.BoolVal(False)))
+                        s2.heap.put(loc.field, loc.owner, z3.Store(c, ekz, z3.BoolVal(False)))
                         out.append((s2, None))
                     else:
                         out.append((s2, Exc(KeyError)) if name == "remove" else (s2, None))
